@@ -438,6 +438,38 @@ def implied_true_calls(body, block, _depth=0, _seen=None):
     return out
 
 
+def true_return_sites(body):
+    """For a body returning bool: one entry per way `_0` can become true: (block, [calls that necessarily
+    returned true]).  `_0 = false` is skipped; `_0 = a()` (also through one temporary) contributes `a`."""
+    out = []
+    defs = body.defs()
+
+    def from_def(d, depth=0):
+        bi, si, kind, payload = d
+        if kind == "call":
+            out.append((bi, [payload] + implied_true_calls(body, payload.bb)))
+            return
+        if kind != "assign":
+            return
+        rv = payload["rv"]
+        if rv["k"] == "use":
+            a = rv["a"][0]
+            ci = const_int(a)
+            if ci == 0:
+                return
+            if ci is None:
+                pl = op_place(a)
+                if pl is not None and not pl["p"] and depth < 3:
+                    for d2 in defs.get(pl["l"], []):
+                        from_def(d2, depth + 1)
+                    return
+        out.append((bi, implied_true_calls(body, bi)))
+
+    for d in defs.get(0, []):
+        from_def(d)
+    return out
+
+
 # ---------------------------------------------------------------------------------------------
 # A three-valued forward analysis over whole bool locals: F (0), T (1), TOP (None).  Used for
 # "once X has been observed the result is false" rules that must not depend on whether the code
